@@ -24,7 +24,7 @@ func init() {
 	for i := 0; i < 8; i++ {
 		floor = append(floor, fmt.Sprintf("opts.%d", i))
 	}
-	floor = append(floor, "bg.async", "bg.spin", "bg.spinasync", "bg.once", "bg.error", "bg.panic(error)", "bg.panic(string)", "bg.panic(runtime error)", "bg.argument-fails", "bg.reads-derived-row", "outcome.error", "outcome.rows")
+	floor = append(floor, "bg.async", "bg.spin", "bg.spinasync", "bg.once", "bg.error", "bg.panic(error)", "bg.panic(string)", "bg.panic(runtime error)", "bg.argument-fails", "bg.reads-derived-row", "union-chain.long", "outcome.error", "outcome.rows")
 	// background-call bookkeeping for SPIN: the check waits for stragglers so
 	// that a panic in a detached goroutine is attributed to the right case
 	genql.RegisterFunction("vbg", func(q *genql.Query, cur genql.Map, o *genql.FunctionOptions, args []any) (any, error) {
@@ -209,6 +209,11 @@ func c10Build(c *fw.Case) c10Case {
 		}
 	case "union-chain":
 		k := 2 + c.Intn(4)
+		if c.Chance(0.15) {
+			// long chains: the work grows with the number of branches, not faster
+			k = 24 + c.Intn(16)
+			cs.feats = append(cs.feats, "union-chain.long")
+		}
 		parts := make([]string, k)
 		for i := range parts {
 			parts[i] = gen.Pick(c.R, []string{"SELECT n1 AS v FROM t1", "SELECT un1 AS v FROM u1", "SELECT 1 AS v FROM dual", "SELECT * FROM t1", "SELECT nosuch AS v FROM nowhere"})
@@ -327,7 +332,9 @@ func c10Build(c *fw.Case) c10Case {
 		}
 	case "distinct-subq-star":
 		cs.sql = gen.Pick(c.R, []string{"SELECT DISTINCT (SELECT e FROM arr) AS s, * FROM t1", "SELECT DISTINCT (SELECT * FROM `<-t1`) AS s, * FROM t1", "SELECT DISTINCT *, (SELECT * FROM `<-u1`) FROM t1 WHERE EXISTS (SELECT * FROM arr)",
-			"SELECT DISTINCT * FROM t1 WHERE n1 IN (SELECT e FROM arr)"})
+			"SELECT DISTINCT * FROM t1 WHERE n1 IN (SELECT e FROM arr)",
+			// the rows a subquery formats while the outer row is in its scope
+			"SELECT rid FROM t1 WHERE EXISTS (SELECT DISTINCT * FROM arr)", "SELECT rid FROM t1 WHERE EXISTS (SELECT DISTINCT *, t1.n1 FROM arr WHERE e >= 0)", "SELECT rid FROM t1 WHERE rid IN (SELECT DISTINCT * FROM arr) OR EXISTS (SELECT DISTINCT * FROM arr ORDER BY e)"})
 	case "object-compare":
 		cs.sql = gen.Pick(c.R, []string{"SELECT * FROM t1 WHERE obj = obj", "SELECT * FROM t1 WHERE arr = arr AND obj != arr", "SELECT * FROM t1 WHERE obj > 1", "SELECT * FROM t1 WHERE obj IN (obj, arr)", "SELECT * FROM t1 WHERE obj BETWEEN arr AND obj",
 			"SELECT * FROM t1 WHERE obj LIKE '%'", "SELECT * FROM t1 ORDER BY obj", "SELECT * FROM t1 x JOIN t1 y ON x.obj = y.obj", "SELECT * FROM t1 WHERE (SELECT * FROM `<-t1`) = (SELECT * FROM `<-t1`)"})
